@@ -132,6 +132,7 @@ def main(argv=None):
     open_findings = [f for f in known.get("findings", []) if f.get("status") == "open" and f.get("property") == prop]
 
     violations, undecided, errors, known_hits = [], [], [], []
+    bounded_sym = {}
     n_ob = n_dis = 0
     covers = {"sat": 0, "unknown": 0}
     canaries = 0
@@ -162,9 +163,15 @@ def main(argv=None):
                 if d["status"] == "failed":
                     errors.append((full, "canary was provable: the contract or engine is too weak / unsound"))
                 continue
-            n_ob += 1
+            is_bounded = "[bounded" in n
+            if is_bounded:
+                b = bounded_sym.setdefault(n, {"obligations": 0, "discharged": 0})
+                b["obligations"] += 1
+                b["discharged"] += d["status"] == "discharged"
+            else:
+                n_ob += 1
             if d["status"] == "discharged":
-                n_dis += 1
+                n_dis += 0 if is_bounded else 1
                 if len(samples) < 6:
                     samples.append({"obligation": full, "goal": d["goal"], "paths": d["instances"], "backend": d["backends"]})
             elif d["status"] == "failed":
@@ -245,6 +252,7 @@ def main(argv=None):
             "solver_time_s": round(solver_time, 2),
             "vacuity": {"covers_sat": covers["sat"], "covers_unknown": covers["unknown"], "canaries_checked": canaries},
             "bounded_stand_ins (NOT counted in discharged)": bounded,
+            "bounded_symbolic_units (proved for the stated bound only, NOT counted in obligations/discharged)": bounded_sym,
             "known_findings_reproduced": [k[0].get("obligation") for k in known_hits],
             "undecided": [u[0] for u in undecided],
             "samples": samples,
